@@ -10,9 +10,9 @@ echo "" >> $out
 while read -r line; do
   [ -z "$line" ] && continue
   rm -f /tmp/audlog.*
-  GOSYM_SMTLOG=/tmp/audlog ./bin/gosym run $line > /tmp/audrun.txt 2>&1
+  GOSYM_HARNESS=${GOSYM_HARNESS:-/verif/harness} GOSYM_SMTLOG=/tmp/audlog ${GOSYM_BIN:-./bin/gosym} run $line > /tmp/audrun.txt 2>&1
   f=$(ls /tmp/audlog.* 2>/dev/null | head -1)
-  res=$(timeout 1500 ./bin/gosym audit $f 4000 2>&1 | tail -1)
+  res=$(timeout 1500 ${GOSYM_BIN:-./bin/gosym} audit $f 4000 2>&1 | tail -1)
   echo "- \`$line\`: $(tail -1 /tmp/audrun.txt | cut -c1-60) — $res" >> $out
 done <<'LIST'
 H_escape 0 3 0 -1
